@@ -444,13 +444,15 @@ class VizierServicer(vizier_service_pb2_grpc.VizierServiceServicer):
 
       while new_trials and request.suggestion_count > len(output_trials):
         new_trial = new_trials.pop()
-        trial_id = self.datastore.max_trial_id(request.parent) + 1
-        new_trial.id = str(trial_id)
-        new_trial.name = TrialResource(owner_id, study_id, trial_id).name
-        new_trial.state = study_pb2.Trial.State.ACTIVE
-        new_trial.start_time.CopyFrom(start_time)
-        new_trial.client_id = request.client_id
-        self.datastore.create_trial(new_trial)
+        # CreateTrial allocates trial ids under the study lock as well.
+        with self._study_name_to_lock[study_name]:
+          trial_id = self.datastore.max_trial_id(request.parent) + 1
+          new_trial.id = str(trial_id)
+          new_trial.name = TrialResource(owner_id, study_id, trial_id).name
+          new_trial.state = study_pb2.Trial.State.ACTIVE
+          new_trial.start_time.CopyFrom(start_time)
+          new_trial.client_id = request.client_id
+          self.datastore.create_trial(new_trial)
         output_trials.append(new_trial)
 
       output_op.response.value = vizier_service_pb2.SuggestTrialsResponse(
@@ -459,11 +461,12 @@ class VizierServicer(vizier_service_pb2_grpc.VizierServiceServicer):
 
       # Store remaining trials as REQUESTED if Pythia over-delivered.
       for remain_trial in new_trials:
-        trial_id = self.datastore.max_trial_id(request.parent) + 1
-        remain_trial.id = str(trial_id)
-        remain_trial.name = TrialResource(owner_id, study_id, trial_id).name
-        remain_trial.state = study_pb2.Trial.State.REQUESTED
-        self.datastore.create_trial(remain_trial)
+        with self._study_name_to_lock[study_name]:
+          trial_id = self.datastore.max_trial_id(request.parent) + 1
+          remain_trial.id = str(trial_id)
+          remain_trial.name = TrialResource(owner_id, study_id, trial_id).name
+          remain_trial.state = study_pb2.Trial.State.REQUESTED
+          self.datastore.create_trial(remain_trial)
 
       output_op.done = True
       self.datastore.update_suggestion_operation(output_op)
